@@ -112,12 +112,14 @@ class AffineTransformation(darsia.BaseTransformation):
                         flip_factor * degree * vector
                     ).as_matrix()
                     rotation_matrix_inv = Rotation.from_rotvec(
-                        -degree * vector
+                        -flip_factor * degree * vector
                     ).as_matrix()
 
+                    # The inverse of a product is the product of the inverses in
+                    # reverse order.
                     self.rotation = np.matmul(self.rotation, rotation_matrix)
                     self.rotation_inv = np.matmul(
-                        self.rotation_inv, rotation_matrix_inv
+                        rotation_matrix_inv, self.rotation_inv
                     )
 
     def set_parameters_as_vector(self, parameters: np.ndarray) -> None:
